@@ -36,7 +36,9 @@ def variants(rng, n, edges, k, quick):
             for (a, j) in [(e[0], e[1]) for e in edges]:
                 behav[j]['sleep_ms'] = max(behav[j].get('sleep_ms', 0), 90)
         pool = rng.choice([1, 2, n, 4])
-        out.append(sc.mk_case(sc.mk_spec(n, edges, kinds, whens, inputs), pool, behav, runs=2 if rng.random() < 0.25 else 1, label='dag'))
+        runs = 2 if rng.random() < 0.25 else 1
+        out.append(sc.mk_case(sc.mk_spec(n, edges, kinds, whens, inputs), pool, behav, runs=runs, label='dag',
+                              touch_inputs=runs == 2 and rng.random() < 0.5))
     return out
 
 
@@ -67,6 +69,11 @@ def gen_cases(chk, quick):
                 # s2 -> s1 -> s0 ; s0 fails or not; s1 has when=w
                 spec = sc.mk_spec(3, [(1, 0, kind), (2, 1, kind)], whens=['by_dependencies', w, 'by_dependencies'])
                 cases.append(sc.mk_case(spec, 2, [{'rc': rc0, 'sleep_ms': 60}, {'sleep_ms': 30}, {}], label='chain'))
+    # two runs of an all-succeeding pipeline with private inputs: second run finds steps up to date; with touched inputs
+    # the thorough comparison decides
+    for touch in (False, True):
+        spec = sc.mk_spec(3, [(1, 0, 'step'), (2, 1, 'step')], inputs=[True, True, True])
+        cases.append(sc.mk_case(spec, 2, [{'sleep_ms': 30}, {}, {}], runs=2, touch_inputs=touch, label='second-run'))
     # outputs that do not exist before the run (first run in a fresh clone): the producer creates them
     for kind in ('file', 'glob', 'globi'):
         for n_cons in (1, 2):
